@@ -226,7 +226,8 @@ def gen_dataset(r, task: str) -> Tuple[D.SceneSpec, Dict[str, Any]]:
     extra = []
     for ch, mod in r.sample([("CAM_FRONT", "camera"), ("CAM_BACK_LEFT", "camera"), ("RADAR_FRONT", "radar"), ("RADAR_BACK", "radar"), ("CAM_TRAFFIC_LIGHT_NEAR", "camera")], r.randint(0, 3)):
         extra.append((ch, mod, (r.uniform(-2, 2), r.uniform(-1, 1), r.uniform(0, 2)), rand_quat(r, False)))
-    spec = D.SceneSpec(samples=samples, lidar_channel=r.choice(["LIDAR_TOP", "LIDAR_CONCAT"]), extra_sensors=extra, vis_style=vis_style, categories=sorted(set(cats)) if r.random() < 0.5 else None)
+    raw = r.random() < 0.3
+    spec = D.SceneSpec(samples=samples, lidar_channel=r.choice(["LIDAR_TOP", "LIDAR_CONCAT"]), extra_sensors=extra, vis_style=vis_style, categories=sorted(set(cats)) if r.random() < 0.5 else None, raw_files=raw, sensor_ego_offset=(r.uniform(-0.6, 0.6), r.uniform(-0.3, 0.3), 0.0) if (extra and r.random() < 0.5) else None)
     info = dict(n_samples=n, n_inst=n_inst, vis_style=vis_style, lidar=spec.lidar_channel, n_sensors=1 + len(extra), disappearing=disappearing, unregistered=any(a.category == "unregistered.thing" for s in samples for a in s.anns), far=far)
     return spec, info
 
@@ -254,7 +255,9 @@ def run(ctx: Ctx) -> None:
                         ctx.count("C16.datasets_with_unregistered_category")
                     for fid in (FrameID.BASE_LINK, FrameID.MAP):
                         conv = LabelConverter(task, merge, "autoware")
-                        base_mod.load_all_datasets(dataset_paths=[dsd.root], evaluation_task=EvaluationTask.from_value(task), label_converter=conv, frame_id=fid, load_raw_data=False)
+                        base_mod.load_all_datasets(dataset_paths=[dsd.root], evaluation_task=EvaluationTask.from_value(task), label_converter=conv, frame_id=fid, load_raw_data=bool(spec.raw_files))
+                        if spec.raw_files:
+                            ctx.count("C16.loads_with_raw_data")
                     # through a real manager as well (detection / tracking / sensing)
                     if idx % 5 == 0 and task in ("detection", "tracking"):
                         from perception_eval.config import PerceptionEvaluationConfig
